@@ -4,7 +4,7 @@ From Coq Require Import List NArith ZArith.
 From Coq.Strings Require Import Byte.
 From SP Require Import Bytes Params Errors BaseX Encodings Armor ArmorProofs.
 From Coq Require String.
-From SP Require Streams GoLang GoLang2 GoAst GoAstStreams GoAstProofs5b.
+From SP Require Streams GoLang GoLang2 GoAst GoAstEnc GoAstProofs5b GoAstProofs5d GoAstFrame GoAstProofs7d.
 Import ListNotations.
 Open Scope N_scope.
 
@@ -81,7 +81,7 @@ Proof. exact (dearmor_sound typ input d). Qed.
 
 (* ---- source ties: the armor ENCODER stream (/repo/armor.go), lemmas of proofs/GoAstProofs5b.v ---- *)
 (* The terms f_saltpack_armorEncoderStream_{Write, spaceAndOutputBuffer, Close} are generated on every run from the
-   Go syntax trees of /repo/armor.go (gen/GoAstStreams.v) and run by the evaluator of model/GoLang2.v ([run2] =
+   Go syntax trees of /repo/armor.go (gen/GoAstEnc.v) and run by the evaluator of model/GoLang2.v ([run2] =
    run_func2 with the fuel F as a parameter; the theorems hold for EVERY fuel above an explicit bound).  The model is
    the state machine ae_space / ae_write / ae_close of model/Streams.v (armor_stream, the one
    C13_write_oblivious_armor equates with the one-shot armor_seal these C11 theorems are about).
@@ -101,7 +101,7 @@ Proof. exact (dearmor_sound typ input d). Qed.
    and the composition against ae_write / ae_close with the sharing stated explicitly as hypotheses (the _aliased
    theorems). *)
 Section C11_source.
-Import GoLang GoLang2 GoAst GoAstStreams Streams GoAstProofs5b String.StringSyntax.
+Import GoLang GoLang2 GoAst GoAstEnc Streams GoAstProofs5b GoAstProofs5d String.StringSyntax.
 Local Open Scope nat_scope.
 Variable W : gval -> bytes -> option (list gval).
 Variable C : gval -> option (list gval).
@@ -251,6 +251,71 @@ Theorem C11_source_armor_Close_aliased (o : gobj) (chars footer : bytes) (k : N)
 Proof. exact (go_armor_Close_aliased W C SP o chars footer k w F). Qed.
 End C11_source.
 
+
+(* ---- SOURCE TIES: armor frames (frame.go, armor62.go) ----
+   The bodies of getStringForType, MakeArmorHeader/Footer, parseFrame, CheckArmor62 and CheckArmor62Frame as translated
+   from /repo on this run (gen/GoAstFrame.v), run by the evaluator of model/GoLang2.v, compute exactly the model's frame
+   functions (model/Armor.v: type_string, make_frame, parse_frame, check_armor62) that the theorems above are about -
+   for EVERY input string, message type and marker.  Library calls are externs with the meanings listed in
+   proofs/GoAstProofs7d.v ([ext_frame]: strings.Split/Join/TrimSpace as executable definitions, the whitespace-run
+   regexp as the model's collapse_ws, shift/pop as firstn/skipn with write-back).  makeFrame, pop, shift and
+   IsSaltpackArmoredPrefix use []string slicing/append, which the embedding's evaluator does not have: they are reported
+   NOT EXPRESSIBLE there (with machine-checked witnesses) and stay tied by the campaign only.
+   parseFrame: the error is nil exactly when the model accepts, and the brand is the model's brand then; on an error
+   the brand returned is "" except at the brand-length check, where the Go code returns the over-long brand together
+   with the error ([pf_go_brand] records exactly that). *)
+Section C11_source_frames.
+Import GoLang GoLang2 GoAstFrame GoAstProofs7d String.StringSyntax.
+Local Open Scope string_scope.
+(* [run7 f args] is [fst (run_func2 ext_frame f args)]: the outcome of running the translated function f *)
+
+Theorem C11_source_getStringForType (typ : Z) :
+  run7 f_saltpack_getStringForType [VInt typ] = ORet [VBytes (type_string typ)].
+Proof. exact (go_getStringForType typ). Qed.
+
+Theorem C11_source_MakeArmorHeader (typ : Z) (brand : bytes) :
+  run7 f_saltpack_MakeArmorHeader [VInt typ; VBytes brand]
+  = ORet [VBytes (make_frame header_marker typ brand)].
+Proof. exact (go_MakeArmorHeader typ brand). Qed.
+
+Theorem C11_source_MakeArmorFooter (typ : Z) (brand : bytes) :
+  run7 f_saltpack_MakeArmorFooter [VInt typ; VBytes brand]
+  = ORet [VBytes (make_frame footer_marker typ brand)].
+Proof. exact (go_MakeArmorFooter typ brand). Qed.
+
+Theorem C11_source_parseFrame (m : bytes) (typ : Z) (hof : bytes) :
+  run7 f_saltpack_parseFrame [VBytes m; VInt typ; VBytes hof]
+  = ORet [VBytes (pf_go_brand m typ hof); g_res_err (parse_frame m typ hof)].
+Proof. exact (go_parseFrame m typ hof). Qed.
+
+Theorem C11_source_parseFrame_brand (m : bytes) (typ : Z) (hof b : bytes) :
+  parse_frame m typ hof = Ok b -> pf_go_brand m typ hof = b.
+Proof. exact (pf_go_brand_ok m typ hof b). Qed.
+
+Theorem C11_source_CheckArmor62 (hdr ftr : bytes) (typ : Z) :
+  run7 f_saltpack_CheckArmor62 [VBytes hdr; VBytes ftr; VInt typ]
+  = ORet (g_brand_res (check_armor62 hdr ftr typ)).
+Proof. exact (go_CheckArmor62 hdr ftr typ). Qed.
+
+(* CheckArmor62Frame, for EVERY implementation of the Frame interface (get_header / get_footer: frame state |->
+   sentence, error value, state afterwards): GetHeader first, its error returned at once, then GetFooter, then
+   CheckArmor62 on the two sentences; the frame object is left in the state after exactly the calls made *)
+Theorem C11_source_CheckArmor62Frame (get_header get_footer : gval -> bytes * gval * gval) :
+  (forall fr, is_errval (snd (fst (get_header fr)))) -> (forall fr, is_errval (snd (fst (get_footer fr)))) ->
+  forall (fr : gval) (typ : Z),
+  let r := run_func2 (ext_frameobj get_header get_footer) f_saltpack_CheckArmor62Frame [fr; VInt typ] in
+  fst r = ORet (fst (check_frame_model get_header get_footer fr typ)) /\
+  lookup "frame" (snd r) = Some (snd (check_frame_model get_header get_footer fr typ)).
+Proof. exact (go_CheckArmor62Frame get_header get_footer). Qed.
+End C11_source_frames.
+
+Print Assumptions C11_source_getStringForType.
+Print Assumptions C11_source_MakeArmorHeader.
+Print Assumptions C11_source_MakeArmorFooter.
+Print Assumptions C11_source_parseFrame.
+Print Assumptions C11_source_parseFrame_brand.
+Print Assumptions C11_source_CheckArmor62.
+Print Assumptions C11_source_CheckArmor62Frame.
 Print Assumptions C11_source_spaceAndOutputBuffer_run.
 Print Assumptions C11_source_ga_space_model.
 Print Assumptions C11_source_armor_Write_glue.
